@@ -72,6 +72,12 @@ CHECKS["C07"] = dict(
     ref="DESIGN.md section 4 / C07",
 )
 
+CHECKS["C04"] = dict(
+    technique="static analysis: exhaustive writer/reader table agreement over all dialect classes (import-introspected tables vs. predicates mirroring the tokenizer's branches, anchored on those branches), emitter-funnel and comment-emission lints",
+    text="For each of the 35 dialect classes the generator's escaping tables are checked against the tokenizer's acceptance conditions: the escaped quote is read back as a quote, every reader escape is neutralised by the writer, every writer sequence decodes, identifier escape characters are escaped and decoded, overrides of the emitters delegate, and comments are block comments sanitised on both markers. These relations are necessary for 'a value can never terminate its own quoting'; the rule R7 pins the reader branches the predicates mirror so a tokenizer change cannot silently invalidate them. Byte/raw/national/heredoc literals and the full for-all-strings round trip are not decided.",
+    ref="DESIGN.md section 4 / C04",
+)
+
 NOT_APPLICABLE = {
     "C02": "oracle is SQLite/DuckDB evaluation semantics (NULL ordering, division, || precedence); not present in the source, no structural clause implies row equality",
     "C03": "result-multiset equality of optimized vs original query over all databases; guards are semantic conditions, only checkable as frozen fragments (false-alarm prone)",
